@@ -645,6 +645,14 @@ def i64_abs(ex, a):
     return abs(x)
 
 
+@nat('u32::count_ones', 'u64::count_ones', 'u16::count_ones', 'u8::count_ones', 'usize::count_ones')
+def count_ones(ex, a):
+    if is_sym(a):
+        n = a.size()
+        return z3.simplify(z3.Sum([z3.ZeroExt(31, z3.Extract(i, i, a)) for i in range(n)]))
+    return bin(a).count('1')
+
+
 @nat('i64::wrapping_abs')
 def i64_wrapping_abs(ex, a):
     if is_sym(a):
@@ -1055,7 +1063,7 @@ def render_arguments(ex, a):
     return out
 
 
-@nat('fmt::format', 'fmt::format_inner')
+@nat('fmt::format', 'fmt::format_inner', 'format')
 def fmt_format(ex, a): return StrV(render_arguments(ex, a))
 
 
